@@ -424,3 +424,64 @@ def custom_filter_episode(seed):
         out["C02"].append(("replay-fresh", f"replaying the (operation, machine) sequence on a fresh dispatcher WITHOUT the user's filter gives another "
                            "schedule: the filter influenced start times"))
     return out
+
+
+def gc_flex_episode(seed):
+    """A build / schedule / discard loop over FLEXIBLE instances of one shape (every operation: 4-5 eligible machines out of 6, other
+    sets each time), each instance garbage before the next exists - the way a study over generated instances runs.  For every
+    operation a request on a machine it cannot run on comes first (must be refused, nothing changes), then the request on an eligible
+    machine (must be accepted at its forced start).  Returns {"C01": [...], "C09": [...], "C02": [...]} lists of (kind, message)."""
+    import gc
+    import random
+    import jsl
+    from impl import build_instance
+    r = random.Random(seed)
+    J, P, M = r.randint(2, 3), r.randint(2, 3), 6
+    out = {"C01": [], "C09": [], "C02": []}
+    for it in range(20):
+        jobs = [[(sorted(r.sample(range(M), r.randint(4, 5))), r.randint(1, 6)) for _ in range(P)] for _ in range(J)]
+        inst = build_instance(jobs)
+        d = jsl.Dispatcher(inst)
+        idx = [0] * J
+        mfree, jfree = [0] * M, [0] * J
+        while any(idx[j] < P for j in range(J)):
+            j = r.choice([k for k in range(J) if idx[k] < P])
+            op = inst.jobs[j][idx[j]]
+            ms = jobs[j][idx[j]][0]
+            wrong = r.choice([m for m in range(M) if m not in ms])
+            before = [[(x.operation.operation_id, x.start_time, x.machine_id) for x in row] for row in d.schedule.schedule]
+            try:
+                d.dispatch(op, wrong)
+                msg = (f"loop iteration {it}: operation {op.operation_id} (machines {ms}) was accepted on machine {wrong} "
+                       f"(instance {jobs})")
+                out["C09"].append(("not-rejected", msg))
+                out["C01"].append(("infeasible", msg + ": the schedule holds an operation on a machine it cannot run on"))
+                return out
+            except Exception:  # pylint: disable=broad-except
+                pass
+            after = [[(x.operation.operation_id, x.start_time, x.machine_id) for x in row] for row in d.schedule.schedule]
+            if before != after:
+                out["C09"].append(("state-changed", f"loop iteration {it}: the refused request changed the schedule"))
+                return out
+            m = r.choice(ms)
+            try:
+                d.dispatch(op, m)
+            except Exception as e:  # pylint: disable=broad-except
+                msg = (f"loop iteration {it}: the ready operation {op.operation_id} (machines {ms}) was refused on machine {m}: "
+                       f"{type(e).__name__} (instance {jobs})")
+                out["C01"].append(("valid-refused", msg))
+                out["C09"].append(("valid-refused", msg))
+                return out
+            start = max(mfree[m], jfree[j])
+            x = d.schedule.schedule[m][-1]
+            if x.operation.operation_id != op.operation_id or x.start_time != start:
+                out["C02"].append(("forced-start", f"loop iteration {it}: operation {op.operation_id} on machine {m} starts at "
+                                   f"{x.start_time}, forced start {start}"))
+            mfree[m] = jfree[j] = start + op.duration
+            idx[j] += 1
+        errs = feasible(inst, d.schedule.schedule)
+        if errs or not d.schedule.is_complete():
+            out["C01"].append(("infeasible", f"loop iteration {it}: {errs[:2]} complete={d.schedule.is_complete()}"))
+        del inst, d, op, x
+        gc.collect()
+    return out
